@@ -236,7 +236,8 @@ class Run:
         self.coqchk = None
         if self.proof_ok and self.tier == "thorough":
             # independent re-check of the compiled theorems and of everything they depend on
-            rc, out = sh("coqchk -silent -o %s V.Props.%s" % (QFLAGS, self.pid), cwd=COQ, timeout=3600)
+            rc, out = sh("coqchk -silent -o %s %s" % (QFLAGS, " ".join("V.Props.%s" % u for u in units)), cwd=COQ,
+                         timeout=3600)
             m = re.search(r"\* Axioms:(.*?)\n\s*\n", out + "\n\n", re.S)
             axioms = (m.group(1).strip() if m else "?")
             self.coqchk = {"rc": rc, "axioms": axioms[:1500],
